@@ -404,7 +404,7 @@ def impl_env():
     return env
 
 
-def _run_sharded(cmd_prefix, cases, shards, timeout, extra_env=None):
+def _run_sharded(cmd_prefix, cases, shards, timeout, extra_env=None, mem_limit=None):
     if not cases:
         return []
     parts = _shards(cases, shards)
@@ -419,7 +419,8 @@ def _run_sharded(cmd_prefix, cases, shards, timeout, extra_env=None):
         outp = os.path.join(d, 'out_%d_%d.json' % (os.getpid(), i))
         with open(inp, 'w') as f:
             json.dump(part, f)
-        p = subprocess.Popen(cmd_prefix + [inp, outp], env=env, stdout=subprocess.PIPE, stderr=subprocess.STDOUT, text=True, cwd=d)
+        p = subprocess.Popen(cmd_prefix + [inp, outp], env=env, stdout=subprocess.PIPE, stderr=subprocess.STDOUT, text=True, cwd=d,
+                             preexec_fn=(lambda: _limit_memory(mem_limit)) if mem_limit else None)
         procs.append((p, inp, outp, part))
     res = []
     err = None
@@ -448,9 +449,16 @@ def _run_sharded(cmd_prefix, cases, shards, timeout, extra_env=None):
     return res
 
 
-def run_impl_py(module, cases, shards=NCPU, timeout=1800, extra_env=None):
+def _limit_memory(nbytes):
+    """address-space limit of a driver process (optional): a defect that makes a query grow a list for ever then ends as a
+    MemoryError inside the query instead of exhausting the machine"""
+    import resource
+    resource.setrlimit(resource.RLIMIT_AS, (nbytes, nbytes))
+
+
+def run_impl_py(module, cases, shards=NCPU, timeout=1800, extra_env=None, mem_limit=None):
     drv = os.path.join(VERIF, 'harness', 'impl', 'py_driver.py')
-    return _run_sharded([VENV_PY, drv, module], cases, shards, timeout, extra_env)
+    return _run_sharded([VENV_PY, drv, module], cases, shards, timeout, extra_env, mem_limit)
 
 
 def run_impl_js(module, cases, shards=NCPU, timeout=1800, extra_env=None):
@@ -487,6 +495,8 @@ class Ctx:
         self.traces = 0
         self.notes = []
         self.exhaustive = None
+        self.generated_obligations = {}   # name -> True (closed under the global context) / False; theorems of a file regenerated by this run
+        self.generated_checker = None
         self.known = [f for f in load_known_findings() if f.get('property') == pid]
 
     # -- statistics
@@ -524,6 +534,13 @@ class Ctx:
         except BrokenPipeError:
             pass
         self.violations.append((path, what))
+
+    def obligation_failed(self, names, detail, theorem, case=None):
+        """a proof obligation (of Props/<ID>.v or of a file generated by this run) no longer checks and no concrete failing
+        input was found: VIOLATION ... no-failing-input-found; the replay file names the obligation"""
+        c = dict(case or {})
+        c['broken_obligations'] = list(names)
+        self.violation(c, None, None, theorem, 'proof obligations no longer check: %s: %s' % (', '.join(names), detail[-1500:]), no_input=True)
 
     def known_finding(self, fid):
         self.known_hits[fid] = self.known_hits.get(fid, 0) + 1
@@ -598,8 +615,8 @@ class Ctx:
             if not okc:
                 self.violation({'coqchk': self.pid}, None, None, 'coqchk', 'coqchk does not accept the compiled closure of Props/%s.vo or reports axioms: %s' % (self.pid, outc[-800:]), no_input=True)
         wall = time.time() - self.t0
-        n_obl = len(obl['theorems'])
-        discharged = n_obl if obl['ok'] else 0
+        n_obl = len(obl['theorems']) + len(self.generated_obligations)
+        discharged = (len(obl['theorems']) if obl['ok'] else 0) + sum(1 for v in self.generated_obligations.values() if v)
         if not obl['ok']:
             self.violation({'props_file': obl['file']}, None, None, 'Props/%s.v' % self.pid,
                            'proof obligations no longer check: ' + obl['log'][-1500:], no_input=True)
@@ -631,6 +648,11 @@ class Ctx:
             'known_findings_hit': self.known_hits,
             'notes': self.notes,
         }
+        if self.generated_obligations:
+            cov['generated_theorems'] = sorted(self.generated_obligations)
+            cov['generated_theorems_failed'] = sorted(k for k, v in self.generated_obligations.items() if not v)
+            if self.generated_checker:
+                cov['checker_cmd'] += '; ' + self.generated_checker
         if chk is not None:
             cov['coqchk'] = chk
         if self.exhaustive is not None:
